@@ -215,7 +215,9 @@ class ResolvePortRefs(ElabPass):
         # Nothing "unconnected". Find the instance one with the lowest (alphabetical) name.
         # Break ties between ports of one instance by port name: the order of `group` itself
         # follows hash-set iteration, and differs from run to run.
-        ordered = sorted(group, key=lambda p: (p.inst.name, p.portname))
+        # Instances without a name are not part of the Module, e.g. the scalar Instance left behind by `n * Inst(p=ref)`.
+        named = [p for p in group if p.inst.name is not None]
+        ordered = sorted(named, key=lambda p: (p.inst.name, p.portname))
         return ordered[0]
 
     def create_source(self, module: Module, group: List[PortRef]) -> PortType:
